@@ -3,6 +3,7 @@
 //! nondeterminism (`sched`), and scripted peers speaking the reference codec
 //! (`peer`).
 
+pub mod bus;
 pub mod peer;
 pub mod sched;
 pub mod util;
